@@ -283,6 +283,12 @@ class ReqGen:
 
 def diff_dumps(a, b, path=""):
     """first few differing leaves between two dumps"""
+    if path == "":
+        for d in (a, b):
+            t = d.get("tables") if isinstance(d, dict) else None
+            if isinstance(t, dict):   # an empty table and a missing table serve the same thing
+                for name in [n for n, v in t.items() if isinstance(v, dict) and not v.get("rows")]:
+                    del t[name]
     out = []
     if type(a) != type(b):
         return [(path, a, b)]
